@@ -10,10 +10,13 @@ import (
 	"encoding/hex"
 	"fmt"
 	"io"
+	"strings"
 
 	"github.com/datastax/go-cassandra-native-protocol/compression/lz4"
 	"github.com/datastax/go-cassandra-native-protocol/compression/snappy"
 	"github.com/datastax/go-cassandra-native-protocol/frame"
+	"github.com/datastax/go-cassandra-native-protocol/message"
+	"github.com/datastax/go-cassandra-native-protocol/primitive"
 
 	"verif/internal/bridge"
 	"verif/internal/cases"
@@ -234,9 +237,17 @@ func paths(c *mon.Ctx, cs gen.Case, id string) {
 		// P1b / P3b: the source has dynamic type *bytes.Buffer (compressors special-case it): the decoder must still
 		// stop at the end of the frame
 		{
+			// ... and the decoded frame must not alias the caller's buffer: the buffer is overwritten (as a proxy
+			// re-using it for the next read would) before the frame is compared
+			scribble := func(src *bytes.Buffer) {
+				src.Reset()
+				src.Write(bytes.Repeat([]byte{0xEE}, len(in)))
+			}
 			src := bytes.NewBuffer(append(make([]byte, 0, len(in)+64), in...))
 			f1, err := codec.DecodeFrame(src)
-			ok = check("P1b-DecodeFrame/bytes.Buffer", f1, len(in)-src.Len(), err) && ok
+			consumed := len(in) - src.Len()
+			scribble(src)
+			ok = check("P1b-DecodeFrame/bytes.Buffer-reused", f1, consumed, err) && ok
 			src = bytes.NewBuffer(append(make([]byte, 0, len(in)+64), in...))
 			if h, err := codec.DecodeHeader(src); err == nil {
 				body, err := codec.DecodeBody(h, src)
@@ -244,7 +255,9 @@ func paths(c *mon.Ctx, cs gen.Case, id string) {
 				if err == nil {
 					f3 = &frame.Frame{Header: h, Body: body}
 				}
-				ok = check("P3b-DecodeHeader+DecodeBody/bytes.Buffer", f3, len(in)-src.Len(), err) && ok
+				consumed := len(in) - src.Len()
+				scribble(src)
+				ok = check("P3b-DecodeHeader+DecodeBody/bytes.Buffer-reused", f3, consumed, err) && ok
 			}
 		}
 		// P2b / P4b: the source is a *bytes.Buffer that the caller re-uses after the raw decode (what a proxy
@@ -311,6 +324,16 @@ func paths(c *mon.Ctx, cs gen.Case, id string) {
 		} else {
 			if int(raw.Header.BodyLength) != len(raw.Body) {
 				viol("P6-ConvertToRawFrame", "BodyLength")
+				ok = false
+			}
+			// a second conversion through the same codec must not disturb the raw frame already handed out
+			keep := append([]byte{}, raw.Body...)
+			other := frame.NewFrame(primitive.ProtocolVersion(a.Version), 1, &message.Query{Query: strings.Repeat("overwrite ", 1+len(keep)/10)})
+			if flag {
+				other.Header.Flags = other.Header.Flags.Add(primitive.HeaderFlagCompressed)
+			}
+			if _, err := codec.ConvertToRawFrame(other); err == nil && !bytes.Equal(keep, raw.Body) {
+				viol("P6-ConvertToRawFrame", "raw-body-changed-by-a-later-conversion")
 				ok = false
 			}
 			var out bytes.Buffer
